@@ -18,7 +18,8 @@ PROP = dict(
           "trimmed or purged >=1 keystone, or a duplicate CommitCircuits presentation of a circuit loaded "
           "from disk (the LoadedFromDisk cell). (2) TestVerifC07Switch: one case = 5..40 link/node actions "
           "against a real Switch; non-trivial = a duplicate add (same lifetime or after a switch restart), a "
-          "duplicate response, or a response replayed after the incoming link resolved the HTLC was presented. "
+          "duplicate response, a response replayed after the incoming link resolved the HTLC, or a re-sent "
+          "local payment attempt was presented. "
           "(3) TestVerifC07Race: 2-3 goroutines on one circuit; non-trivial = >=2 calls competed for the "
           "response slot of the same live circuit. Distinct = distinct op logs."),
     level_note=("The race part explores only the schedules the Go runtime happens to produce (weak by "
@@ -36,14 +37,16 @@ PROP = dict(
         "write failures are injected as a failing bbolt transaction of CommitCircuits/OpenCircuits/"
         "DeleteCircuits/NewCircuitMap; TrimOpenCircuits write failures are not injected (no documented "
         "rollback contract)",
-        "switch level covers forwarded HTLCs only (no locally initiated payments); closed-channel purging "
-        "is exercised at circuit-map level only",
+        "switch level: results of locally initiated payments are counted at the HtlcNotifier (last step of "
+        "handleLocalResponse) and compared exactly whenever the switch is stopped; a result not seen within "
+        "60 s makes the case inconclusive (counter), never a violation; closed-channel purging is exercised "
+        "at circuit-map level only",
     ],
     jobs=dict(
         quick=[
-            job("htlcswitch", "^TestVerifC07CircuitMap$", [_CM], 400, shards=4),
-            job("htlcswitch", "^TestVerifC07Switch$", [_SW], 300, shards=4),
-            job("htlcswitch", "^TestVerifC07Race$", [_RACE], 150, shards=2),
+            job("htlcswitch", "^TestVerifC07CircuitMap$", [_CM], 800, shards=4),
+            job("htlcswitch", "^TestVerifC07Switch$", [_SW], 500, shards=4),
+            job("htlcswitch", "^TestVerifC07Race$", [_RACE], 200, shards=2),
         ],
         thorough=[
             job("htlcswitch", "^TestVerifC07CircuitMap$", [_CM], 3000, shards=8, timeout=900,
